@@ -144,7 +144,35 @@ fn cop_strategy(f: Flavour) -> BoxedStrategy<COp> {
   proptest::strategy::Union::new_weighted(opts.into_iter().filter(|(w, _)| *w > 0).collect()).boxed()
 }
 
+/// Cancel-focused programs (reserve mode): few items that always fit, consumers with short lists
+/// of blocking and cancelled receives — the shape in which a wake swallowed by a cancelled
+/// future leaves a parked thread behind with nobody to make up for it.
+fn cancel_focused(flavours: Vec<Flavour>, schedules: usize) -> BoxedStrategy<Scenario> {
+  let fl: Vec<Flavour> = flavours.into_iter().filter(|f| f.has_batch() && *f != Flavour::Broadcast).collect();
+  if fl.is_empty() {
+    return Just(Scenario { flavour: Flavour::MpmcBounded, async_start: true, cap: 4, producers: vec![vec![POp::Send]], consumers: vec![(vec![COp::Recv], false)], seed: 0, schedules, balanced: true, reserve: true }).boxed();
+  }
+  let cop = prop_oneof![3 => Just(COp::RecvCancel), 3 => Just(COp::Recv), 1 => Just(COp::Convert), 1 => Just(COp::Yield), 1 => Just(COp::RecvTimeout(false))];
+  (proptest::sample::select(fl), any::<u64>()).prop_flat_map(move |(f, seed)| {
+    let maxp = if f.multi_tx() { 2 } else { 1 };
+    let maxc = if f.multi_rx() { 3 } else { 1 };
+    (
+      proptest::collection::vec(proptest::collection::vec(prop_oneof![4 => Just(POp::Send), 1 => Just(POp::Yield)], 1..3), 1..=maxp),
+      proptest::collection::vec((proptest::collection::vec(cop.clone(), 1..4), Just(false)), 1..=maxc),
+      any::<bool>(),
+    )
+      .prop_map(move |(producers, consumers, a)| Scenario { flavour: f, async_start: a, cap: 4, producers, consumers, seed, schedules, balanced: true, reserve: true })
+  }).boxed()
+}
+
 pub fn scenario_strategy(flavours: Vec<Flavour>, prop: &str, schedules: usize) -> BoxedStrategy<Scenario> {
+  let focused = cancel_focused(flavours.clone(), schedules);
+  let general = scenario_strategy_general(flavours, prop, schedules);
+  let wf = if prop == "C05" || prop == "C06" { 3 } else { 1 };
+  prop_oneof![10 => general, wf => focused].boxed()
+}
+
+fn scenario_strategy_general(flavours: Vec<Flavour>, prop: &str, schedules: usize) -> BoxedStrategy<Scenario> {
   let _ = prop;
   (proptest::sample::select(flavours), any::<bool>(), prop_oneof![4 => Just(1usize), 3 => Just(2usize), 2 => Just(3usize), 1 => Just(4usize)], any::<u64>())
     .prop_flat_map(move |(f, a, cap, seed)| {
